@@ -160,8 +160,48 @@ def arm_value(body: list[ast.stmt]) -> ast.AST:
     for st in body:
         if isinstance(st, ast.Return) and st.value is not None:
             return st.value
-        if isinstance(st, ast.Assign):
-            return st.value
         if isinstance(st, ast.Raise):
             return st
+    assigns = [st for st in body if isinstance(st, ast.Assign)]
+    if assigns:
+        return assigns[-1].value  # an arm that ends by assigning its result (helper locals before it are inlined by the caller)
     raise AnalysisError("decision arm with no value")
+
+
+def inline_single_assignments(fn: ast.AST, e: ast.AST, depth: int = 0) -> ast.AST:
+    """Replace, in a copy of expression e, every local Name that fn assigns exactly once (plain `name = expr`, at any depth, never
+    re-bound by for/with/aug-assignment/parameters) by the assigned expression, recursively.  Purely syntactic; used so that decision
+    tables are read the same whether sub-terms are written inline or named first."""
+    import copy
+
+    params = {a.arg for a in fn.args.args + fn.args.kwonlyargs + fn.args.posonlyargs}
+    counts: dict[str, int] = {}
+    values: dict[str, ast.AST] = {}
+    for n in ast.walk(fn):
+        if isinstance(n, ast.Assign):
+            for t in n.targets:
+                for x in ast.walk(t):
+                    if isinstance(x, ast.Name):
+                        counts[x.id] = counts.get(x.id, 0) + 1
+                        if isinstance(t, ast.Name) and len(n.targets) == 1:
+                            values[x.id] = n.value
+        elif isinstance(n, (ast.AugAssign, ast.AnnAssign, ast.For, ast.AsyncFor, ast.NamedExpr, ast.comprehension)):
+            tg = n.target
+            for x in ast.walk(tg):
+                if isinstance(x, ast.Name):
+                    counts[x.id] = counts.get(x.id, 0) + 2
+        elif isinstance(n, (ast.With, ast.AsyncWith)):
+            for it in n.items:
+                if it.optional_vars is not None:
+                    for x in ast.walk(it.optional_vars):
+                        if isinstance(x, ast.Name):
+                            counts[x.id] = counts.get(x.id, 0) + 2
+    single = {k: v for k, v in values.items() if counts.get(k) == 1 and k not in params}
+
+    class Sub(ast.NodeTransformer):
+        def visit_Name(self, node):
+            if isinstance(node.ctx, ast.Load) and node.id in single and depth < 8:
+                return inline_single_assignments(fn, single[node.id], depth + 1)
+            return node
+
+    return ast.fix_missing_locations(Sub().visit(copy.deepcopy(e)))
